@@ -490,7 +490,7 @@ impl ExecBuilder {
                             }
                         }
                         // ---------- C05 / C07: associated methods ---------------------------
-                        if self.wants("C05") || self.wants("C07") {
+                        if self.wants("C05") || self.wants("C07") || self.wants("C04") {
                             for me in env.associated(&path) {
                                 if me.name.starts_with('_') && me.kind == MKind::Own {
                                     continue;
@@ -499,10 +499,14 @@ impl ExecBuilder {
                                 if is_own && !self.wants("C05") {
                                     continue;
                                 }
-                                if !is_own && !self.wants("C07") {
+                                // a re-exposed VIRTUAL function of a later base is a wrapper that has
+                                // to end in the right slot of the right sub-object's table: C07's
+                                // business, and C04's as far as the dispatch goes
+                                let for_c04 = !is_own && me.is_virtual_origin && self.wants("C04") && !self.wants("C07");
+                                if !is_own && !self.wants("C07") && !for_c04 {
                                     continue;
                                 }
-                                let prop: &'static str = if is_own { "C05" } else { "C07" };
+                                let prop: &'static str = if is_own { "C05" } else if for_c04 { "C04" } else { "C07" };
                                 let Some(em) = ef.method(tname, &me.name) else {
                                     st.bad.push((format!("{prop}/method-missing"), format!("`{path}` has no method `{}`", me.name), prop));
                                     continue;
